@@ -48,11 +48,13 @@ const (
 )
 
 // Sender-side helpers of the multi-stream protocol.
-func VerifC19ChunkTotal(fileSize int64, chunkSize uint32) uint32 { return chunkTotal(fileSize, chunkSize) }
+func VerifC19ChunkTotal(fileSize int64, chunkSize uint32) uint32 {
+	return chunkTotal(fileSize, chunkSize)
+}
 func VerifC19ChunkSizeForIndex(fileSize int64, chunkSize uint32, idx uint32) uint32 {
 	return chunkSizeForIndex(fileSize, chunkSize, idx)
 }
-func VerifC19FileKey(item manifest.FileItem) uint64 { return fileKeyForItem(item) }
+func VerifC19FileKey(item manifest.FileItem) uint64   { return fileKeyForItem(item) }
 func VerifC19SidecarID(item manifest.FileItem) string { return sidecarIdentifier(item) }
 func VerifC19CRC32C(b []byte) uint32                  { return crc32.Checksum(b, crc32cTable) }
 
